@@ -562,6 +562,10 @@ func checkProc(t rep.Fataler, c ProcCase) {
 		rep.Fail(t, ID, "proc", c, obs, format, a...)
 	}
 
+	// the process that starts the run happens to have the output variable's name in
+	// its environment already: what the producer prints (nothing at all, possibly)
+	// replaces it
+	os.Setenv(outVar, "stale-value-inherited-from-the-environment")
 	// run 1: prod ok, gate fails -> onFailure + onExit
 	id1, _, runErr := h.Start(ctx, file, over)
 	if ctx.Err() != nil {
